@@ -4,6 +4,7 @@ import (
 	"fmt"
 	"go/ast"
 	"go/constant"
+	"go/token"
 	"go/types"
 	"sort"
 	"strings"
@@ -122,11 +123,32 @@ func (e *Enum) setIsIota() {
 // fetchConstComment retrieve the comment, not exposed in go/types
 func fetchConstComment(pa *packages.Package, obj *types.Const) string {
 	node := nodeAt(pa, obj.Pos())
-	spec := node.(*ast.ValueSpec)
-	if spec.Comment == nil {
+	spec, ok := node.(*ast.ValueSpec)
+	if !ok {
+		// in a multi-name spec (const A, B T = 0, 1) only the first name
+		// shares its position with the spec : look for the enclosing one
+		spec = valueSpecAt(pa, obj.Pos())
+	}
+	if spec == nil || spec.Comment == nil {
 		return ""
 	}
 	return strings.TrimSpace(spec.Comment.Text())
+}
+
+// valueSpecAt returns the constant or variable spec containing [pos], or nil
+func valueSpecAt(pa *packages.Package, pos token.Pos) (out *ast.ValueSpec) {
+	for _, file := range pa.Syntax {
+		if !(file.Pos() <= pos && pos < file.End()) {
+			continue
+		}
+		ast.Inspect(file, func(n ast.Node) bool {
+			if spec, ok := n.(*ast.ValueSpec); ok && spec.Pos() <= pos && pos < spec.End() {
+				out = spec
+			}
+			return out == nil
+		})
+	}
+	return out
 }
 
 // fetchPkgEnums walks through all the constants defined by the given package
